@@ -56,8 +56,16 @@ def entity(kind, path):
                 D.typedef(T(q(path, C), t=[I]), 'TtInt' + s)]
     if kind == 'enumclass':
         C = 'Ce' + s
-        return [D.cls(C, [D.enum('Kind', ['Dog', 'Cat']), D.enum('Mode', ['FAST', 'SLOW', 'OFF'], 'enum class'),
+        # same enum names in every scope's class, different enumerators
+        return [D.cls(C, [D.enum('Kind', ['Dog' + s, 'Cat' + s]), D.enum('Mode', ['FAST', 'SLOW' + s, 'OFF'][:2 + len(path) % 2], 'enum class'),
                           D.ctor(C), D.method(single(I), 'kind', [], 1)])]
+    if kind == 'samename':
+        # the same class name in every scope, and (below a) in two sibling namespaces that are both called detail
+        out = [D.cls('Same', [D.ctor('Same'), D.method(single(I), 'where' + s, [], 1), D.enum('Tag', ['T' + s])], v=1)]
+        if len(path) == 1:
+            out += [D.ns('left', [D.ns('detail', [D.cls('Pool', [D.ctor('Pool'), D.method(single(I), 'l', [], 1)], v=1)])]),
+                    D.ns('right', [D.ns('detail', [D.cls('Pool', [D.ctor('Pool'), D.method(single(I), 'r', [], 1)], v=1)])])]
+        return out
     if kind == 'derived':
         B, C = 'Ba' + s, 'De' + s
         return [D.cls(B, [D.method(single(I), 'base', [], 1)], v=1),
@@ -82,7 +90,7 @@ def entity(kind, path):
     raise ValueError(kind)
 
 
-KINDS = ['class_full', 'tclass', 'typedef', 'enumclass', 'derived', 'noctor', 'enum', 'func', 'tfunc', 'var', 'serial']
+KINDS = ['class_full', 'tclass', 'typedef', 'enumclass', 'derived', 'noctor', 'enum', 'func', 'tfunc', 'var', 'serial', 'samename']
 
 
 def build(kinds):
@@ -109,6 +117,9 @@ def ignore_sets(kinds):
         out['class-with-enums'] = ['a::CeA']
     if 'derived' in kinds:
         out['derived-class'] = ['a::DeA']
+    if 'samename' in kinds:
+        out['same-name-global'] = ['Same']
+        out['same-name-nested'] = ['a::b::Same', 'a::right::detail::Pool']
     return out
 
 
@@ -169,7 +180,7 @@ def run(ctx):
     return {
         'evaluations': len(cases),
         'distinct_nontrivial': len({(tuple(c['kinds']), tuple(c['ignore']), c['ser']) for c in cases}),
-        'rule': '11 entity kinds in each of 4 namespace scopes (depth 0..3): singles x applicable ignore lists x serialization, '
+        'rule': '12 entity kinds in each of 4 namespace scopes (depth 0..3): singles x applicable ignore lists x serialization, '
                 'all ordered pairs (also x ignore lists with serialization)%s; file tree, per-file structure and MEX preamble compared with the reference toolbox'
                 % ('; all triples with serialization' if ctx.thorough else ''),
         'samples': [D.render(build(['enumclass']))[:1500]],
